@@ -192,7 +192,7 @@ NUMS = ['2', '3', '5', '7', '11', '13', '1.5', '2.5', '0.5', '17', '19', '4',
         '0.25', '10', '1E+2', '1.5E-1', '23', '29']
 STRS = ['a', 'b', 'x y', 'Q', "it's", 'say "hi"', '', '1', ' p', ',', '(', ')',
         'a,b', ';', '{1,2}', '&', '=1+2', '%', ':', ' ', '"', 'A1', 'TRUE', '#N/A',
-        ', ', '),(']
+        ', ', '),(', 'two\nlines', '\n', 'tab\there']
 FUNCS_VAR = ['CONCATENATE', 'SUM', 'MAX', 'MIN', 'TEXTJOIN', 'IF', 'AND', 'OR']
 
 
